@@ -8,10 +8,13 @@ import sys
 from common import tlc, tlc_cases, ToolError
 import sqlcases
 
+NEW_FEATURES = ["window", "lateral", "quant", "sets", "distincton", "pack", "having", "tlimit", "cse", "focus"]
+ALL_FEATURES_S = sqlcases.ALL_FEATURES + NEW_FEATURES
+
 
 def generate(ctx, n, seed, depth=2, edepth=2, maxrows=4, ndb=3, features=None, tag="semgen", workers=4,
              module="sem/SemGen", emit="EmitS", extra_consts="", init="Init"):
-    feats = sqlcases.ALL_FEATURES if features is None else features
+    feats = ALL_FEATURES_S if features is None else features
     cfg = ctx.path(f"{tag}.cfg")
     with open(cfg, "w") as f:
         f.write(f"CONSTANTS N = {n}  DEPTH = {depth}  EDEPTH = {edepth}  MAXROWS = {maxrows}  NDB = {ndb}\n")
@@ -39,7 +42,8 @@ def views(case):
     out = [case]
     for d in case.get("dbs", []):
         v = {k: case[k] for k in ("id", "plan", "mode", "schema", "schemas", "sql")}
-        v.update(db=d["db"], expect=d["expect"], universe=d["universe"], dbseed=d["dbseed"])
+        v.update(db=d["db"], expect=d["expect"], universe=d["universe"], dbseed=d["dbseed"],
+                 expect_alt=d.get("expect_alt"), universe_alt=d.get("universe_alt"))
         out.append(v)
     return out
 
@@ -70,3 +74,22 @@ def generate_many(ctx, gens, workers=None):
     for cs, _ in results:
         cases += cs
     return cases
+
+
+def compare(view, rows, err):
+    """sqlcases.compare for a view, with the alternative expectation evaluated against ITS universe (LIMIT modes):
+    None = allowed by the reference; "KNOWN[setop-all-evaluated-as-semi-anti-join] ..." = differs from the reference but
+    is exactly what the engine's semi/anti-join reading of INTERSECT ALL / EXCEPT ALL gives; else the oracle message."""
+    msg = sqlcases._compare(view, view["expect"], rows, err)
+    alt = view.get("expect_alt")
+    if msg and alt is not None and err is None and (alt != view["expect"] or view.get("universe_alt") != view.get("universe")):
+        v2 = dict(view, universe=view.get("universe_alt") if view.get("universe_alt") is not None else view.get("universe"))
+        if sqlcases._compare(v2, alt, rows, err) is None:
+            return f"KNOWN[{sqlcases.KNOWN_SETOP_ALL}] INTERSECT ALL / EXCEPT ALL lose multiplicities (engine evaluates them as semi/anti joins): {msg}"
+    return msg
+
+
+def known_key(msg):
+    import re
+    m = re.search(r"KNOWN\[([^\]]+)\]", msg or "")
+    return m.group(1) if m else None
